@@ -129,25 +129,25 @@ type Replay struct {
 
 // WorkerResult is written by a worker process for the driver.
 type WorkerResult struct {
-	Property     string             `json:"property"`
-	Worker       int                `json:"worker"`
-	Runs         int                `json:"runs"`
-	Nontrivial   int                `json:"nontrivial"`
-	Signatures   []string           `json:"signatures"`
-	Interleaves  []string           `json:"interleavings,omitempty"`
-	Faults       map[string]int     `json:"faults"`
-	Probes       map[string]int     `json:"probes"`
-	SimTimeS     float64            `json:"sim_time_s"`
-	WallS        float64            `json:"wall_s"`
-	Inconclusive int                `json:"inconclusive"`
-	Samples      []json.RawMessage  `json:"samples"`
-	Violation    *Violation         `json:"violation,omitempty"`
-	ReplayFile   string             `json:"replay_file,omitempty"`
-	KnownHits    map[string]int     `json:"known_hits,omitempty"`
-	KnownDetail  map[string]string  `json:"known_detail,omitempty"`
-	Reproduced   *bool              `json:"reproduced,omitempty"` // replay mode
-	Traces       map[string][]string `json:"traces,omitempty"`   // trace mode: seed -> log
-	Error        string             `json:"error,omitempty"`
+	Property     string              `json:"property"`
+	Worker       int                 `json:"worker"`
+	Runs         int                 `json:"runs"`
+	Nontrivial   int                 `json:"nontrivial"`
+	Signatures   []string            `json:"signatures"`
+	Interleaves  []string            `json:"interleavings,omitempty"`
+	Faults       map[string]int      `json:"faults"`
+	Probes       map[string]int      `json:"probes"`
+	SimTimeS     float64             `json:"sim_time_s"`
+	WallS        float64             `json:"wall_s"`
+	Inconclusive int                 `json:"inconclusive"`
+	Samples      []json.RawMessage   `json:"samples"`
+	Violation    *Violation          `json:"violation,omitempty"`
+	ReplayFile   string              `json:"replay_file,omitempty"`
+	KnownHits    map[string]int      `json:"known_hits,omitempty"`
+	KnownDetail  map[string]string   `json:"known_detail,omitempty"`
+	Reproduced   *bool               `json:"reproduced,omitempty"` // replay mode
+	Traces       map[string][]string `json:"traces,omitempty"`     // trace mode: seed -> log
+	Error        string              `json:"error,omitempty"`
 }
 
 type knownEntry struct {
